@@ -4,12 +4,35 @@ B = "Source/Lib/Decoder/Codec/EbDecBitstream.c:"
 F = [P + "svt_get_sequence_info", P + "read_obu_header_size", P + "read_obu_header", P + "read_sequence_header_obu", P + "read_color_config", P + "read_timing_info",
      P + "read_decoder_model_info", P + "read_operating_params_info", B + "dec_bits_init", B + "dec_get_bits", B + "dec_get_bits_leb128", B + "dec_get_bits_uvlc"]
 META = {
-    "level_text": "The real OBU-header / sequence-header parser behind the public svt_get_sequence_info on EVERY byte string of length 1..N held in a heap object of exactly that length: CBMC's pointer/bounds/shift/overflow checks and unwinding assertions (termination) are the oracle. Two variants: exact-size buffer (any over-read is reported) and a buffer with the bit reader's 8 bytes of look-ahead (everything except that look-ahead is reported).",
+    "level_text": "The real OBU-header / sequence-header parser behind the public svt_get_sequence_info on EVERY byte string of length 1..N held in a heap object of exactly that length: CBMC's pointer/bounds/shift/overflow checks and unwinding assertions (termination) are the oracle. Two variants: exact-size buffer (any over-read is reported) and a buffer with the bit reader's 8 bytes of look-ahead (everything except that look-ahead is reported). Plus the frame-level mode-info offset map: the real allocation statements of init_master_frame_ctxt and the real update_block_nbrs, for every block position inside the superblock-aligned frame of several concrete frame geometries (portrait and landscape, superblock 64 and 128): every write stays inside the allocation.",
     "level_note": "Parsing stops at the sequence header: frame headers, tile data and reconstruction on corrupt input are outside. The 16-byte look-ahead of dec_bits_init/GET_BITS past the caller's data is a known finding (see known_findings.txt), reported as KNOWN-FINDING by the exact-size variant.",
     "technique": "CBMC bounded symbolic execution over all input byte strings up to N with exact-size heap buffers",
     "assumptions": ["single call on a fresh SeqHeader"],
     "outside": ["svt_av1_dec_frame beyond the sequence header", "multi-threaded decode"],
     "stubs": [], "explanation": ""}
+MI = "Source/Lib/Decoder/Codec/EbDecMemInit.c"
+NB = "Source/Lib/Decoder/Codec/EbDecNbr.c"
+
+
+def gen_mimap(wd):
+    import os
+    from vlib import slicer
+    A = "    FrameMiMap *frame_mi_map = &main_frame_buf->frame_mi_map;\n"
+    B = "    frame_mi_map->num_mis_in_sb_wd = (1 << (sb_size_log2 - MI_SIZE_LOG2));\n"
+    blk = slicer.between(MI, A, B, True)
+    open(os.path.join(wd, "c10_mimap.inc"), "w").write(
+        "/* sliced verbatim from init_master_frame_ctxt (EbDecMemInit.c) */\nstatic EbErrorType alloc_mi_map(MainFrameBuf *main_frame_buf, int32_t sb_cols, int32_t sb_rows, int32_t sb_size_log2) {\n"
+        + blk + "    return EB_ErrorNone;\n}\n" + slicer.functions(NB, ["update_block_nbrs"]))
+
+
+def mimap(w, h, sbl, bs="BLOCK_4X4"):
+    from vlib.core import Query as Q
+    return Q(name="mi_offset_map_covers_frame_%dx%d_sb%d_%s" % (w, h, 1 << sbl, bs.lower()), harness="C10/mimap.c", gen=gen_mimap, defines=["FW=%d" % w, "FH=%d" % h, "SBL=%d" % sbl, "BSZ=%s" % bs], unwind=36, timeout=600, mem_gb=16, flags=["--slice-formula"],
+             funcs=[MI + ":init_master_frame_ctxt (mode-info map allocation, sliced)", NB + ":update_block_nbrs"],
+             bound="frame %dx%d, superblock %d, block size %s at every position inside the superblock-aligned frame" % (w, h, 1 << sbl, bs),
+             what="the parser's per-block write into the 4x4 mode-info offset map stays inside the allocation")
+
+
 def queries(tier):
     qs = []
     for n in ([2, 3, 5] if tier != "thorough" else [1, 2, 3, 4, 5, 6, 8]):
@@ -22,4 +45,7 @@ def queries(tier):
         for slack in (0, 16):
             qs.append(Query(name="seqinfo_%s_n%d" % ("exact" if slack == 0 else "slack16", 8), harness="C10/seqinfo.c", defines=["NMAX=8", "SLACK=%d" % slack], unwind=34, funcs=F, timeout=3600, mem_gb=40,
                             bound="all byte strings of length 1..8, full sequence-header parser", what="no read outside the buffer, no UB, terminates"))
+    qs += [mimap(64, 128, 6), mimap(64, 128, 6, "BLOCK_64X64"), mimap(128, 64, 6), mimap(192, 320, 6), mimap(192, 320, 6, "BLOCK_16X64"), mimap(320, 192, 7), mimap(256, 256, 7, "BLOCK_128X128")]
+    if tier == "thorough":
+        qs += [mimap(720, 1280, 6), mimap(1280, 720, 6), mimap(64, 64, 6), mimap(128, 384, 7, "BLOCK_64X128")]
     return qs
